@@ -358,7 +358,7 @@ def read_work(task):
 
 def castable_work(_task):
     """shape-castable round trip through ctx.set / ctx.get"""
-    from amaranth.hdl import Module, Signal, ClockDomain
+    from amaranth.hdl import Module, Signal, ClockDomain, ShapeCastable, ValueCastable, Const, Value, Format, signed
     from amaranth.lib import data, enum as aenum
     out = {"cov": {"evaluations": 0, "castable_cases": 0}, "samples": [], "violations": []}
 
@@ -373,18 +373,77 @@ def castable_work(_task):
         e: E
         s: aenum.IntEnum if False else 2
 
+    class SE(aenum.Enum, shape=signed(2)):
+        N2 = -2
+        N1 = -1
+        Z = 0
+        P = 1
+
+    class Fx(ShapeCastable):
+        """fixed point with one fractional bit over signed(4): a shape-castable whose underlying shape is signed and whose values are not ints"""
+        def as_shape(self):
+            return signed(4)
+
+        def const(self, init):
+            return Const(0 if init is None else int(init * 2), signed(4))
+
+        def __call__(self, target):
+            return FxView(target)
+
+        def from_bits(self, raw):
+            return raw / 2
+
+        def format(self, value, spec):
+            return Format("{}", Value.cast(value))
+
+    class FxView(ValueCastable):
+        def __init__(self, target):
+            self.target = target
+
+        def as_value(self):
+            return self.target
+
+        def shape(self):
+            return Fx()
+
     lay = data.StructLayout({"p": 1, "q": data.ArrayLayout(2, 2), "r": E})
+    lay_s = data.StructLayout({"k": SE, "v": 1, "f": signed(2)})
     m = Module()
+    s5 = Signal(SE)
+    s6 = Signal(Fx())
+    s7 = Signal(lay_s)
     s1 = Signal(St)
     s2 = Signal(lay)
     s3 = Signal(E)
     s4 = Signal(data.ArrayLayout(E, 2))
     keep = Signal(40)
-    m.d.comb += keep.eq(s1.as_value() + s2.as_value() + s3.as_value() + s4.as_value())
+    m.d.comb += keep.eq(s1.as_value() + s2.as_value() + s3.as_value() + s4.as_value() + s5.as_value() + s6.as_value() + s7.as_value())
     frag = elaborate(m)
 
     def body(ctx):
-        for sig in (s1, s2, s4):
+        # shape-castables over a SIGNED underlying shape: from_bits receives the value as the circuit holds it (negative when the sign bit is set)
+        for mem in SE:
+            out["cov"]["evaluations"] += 1
+            ctx.set(s5, mem)
+            try:
+                back = ctx.get(s5)
+            except Exception as ex:
+                back = f"raises {type(ex).__name__}: {ex}"
+            if back is not mem or ctx.get(s5.as_value()) != mem.value:
+                out["violations"].append({"sig": f"castable:signed-enum:{mem.name}", "what": f"signed enum round trip of {mem}: ctx.get gives {back!r}, raw {ctx.get(s5.as_value())}",
+                                          "payload": {"castable": True}})
+        out["cov"]["castable_cases"] += 1
+        for raw in range(-8, 8):
+            out["cov"]["evaluations"] += 2
+            ctx.set(s6.as_value(), raw)
+            back = ctx.get(s6)
+            ctx.set(s6, raw / 2)
+            rawback = ctx.get(s6.as_value())
+            if back != raw / 2 or rawback != raw:
+                out["violations"].append({"sig": f"castable:fixed-point:{raw}", "what": f"custom signed shape-castable, raw {raw}: ctx.get gives {back!r} (want {raw / 2}), "
+                                          f"ctx.set({raw / 2}) stores {rawback}", "payload": {"castable": True}})
+        out["cov"]["castable_cases"] += 1
+        for sig in (s1, s2, s4, s7):
             lay_ = sig.shape()
             w = len(sig.as_value())
             for raw in range(1 << w):
